@@ -12,6 +12,12 @@ Theorem machine_implements_spec fuel prog stdin h' w' r d :
 Proof. exact (Refine4.machine_implements_spec fuel prog stdin h' w' r d). Qed.
 Print Assumptions machine_implements_spec.
 
+(* main.main on a text holding SEVERAL expressions: the machine answers every expression as the specification does, each started in the heap and the world (input left, output, files, module registry) the previous one ended in; the invariants are re-established at every end, so the refinement chains *)
+Theorem machine_implements_spec_many fuel progs fio :
+  forall h w, inv h [] -> many_ok fuel h w progs fio.
+Proof. exact (Refine4.machine_implements_spec_many fuel progs fio). Qed.
+Print Assumptions machine_implements_spec_many.
+
 (* and with the explicit MAX_STACK_SIZE guard it never reports the limit when the demand depth fits *)
 Theorem real_machine_implements_spec fuel prog stdin h' w' r d :
   spec_main fuel prog stdin = Done h' w' r d -> (1 + d <= MAX_STACK_SIZE)%nat ->
